@@ -45,6 +45,15 @@ def get_chunk_dtype_transformer(input_dtype, output_dtype, warn=True):
         output_max = 1.0
 
     work_dtype = np.promote_types(input_dtype, output_dtype)
+    clip_min, clip_max = output_min, output_max
+    if (np.issubdtype(input_dtype, np.integer)
+            and np.issubdtype(output_dtype, np.integer)):
+        # Integer-to-integer conversions are clipped in the input type:
+        # promoting a signed/unsigned 64-bit pair yields float64, which cannot
+        # hold all integers above 2**53.
+        work_dtype = input_dtype
+        clip_min = max(output_min, np.iinfo(input_dtype).min)
+        clip_max = min(output_max, np.iinfo(input_dtype).max)
 
     round_to_nearest = (
         np.issubdtype(output_dtype, np.integer)
@@ -54,6 +63,12 @@ def get_chunk_dtype_transformer(input_dtype, output_dtype, warn=True):
         np.issubdtype(output_dtype, np.integer)
         and not np.can_cast(input_dtype, output_dtype, casting="safe")
     )
+
+    # The maximum of a 64-bit integer type is not representable in the
+    # floating-point work type (it rounds up to 2**64, which wraps to 0 in the
+    # final cast), so these values must be saturated explicitly.
+    saturate_max = (clip_values and work_dtype.kind == "f"
+                    and int(work_dtype.type(output_max)) > output_max)
 
     logger.debug("dtype converter from %s to %s: "
                  "work_dtype=%s, round_to_nearest=%s, clip_values=%s",
@@ -74,7 +89,14 @@ def get_chunk_dtype_transformer(input_dtype, output_dtype, warn=True):
             if round_to_nearest:
                 np.rint(chunk, out=chunk)
             if clip_values:
-                np.clip(chunk, output_min, output_max, out=chunk)
+                np.clip(chunk, clip_min, clip_max, out=chunk)
+            if saturate_max:
+                top = work_dtype.type(output_max)
+                too_big = chunk >= top
+                chunk[too_big] = np.nextafter(top, work_dtype.type(0))
+                ret = chunk.astype(output_dtype, casting="unsafe")
+                ret[too_big] = output_max
+                return ret
         return chunk.astype(output_dtype, casting="unsafe")
 
     return chunk_transformer
